@@ -85,6 +85,13 @@ Qed.
 Lemma flow_src nt u v w : flow nt (u, v) = flow nt (w, v) -> u = w.
 Proof. unfold flow. cbn [fst snd]. intros H. apply (sapp_inj_r ("_to_" +++ v +++ "_" +++ net_name nt)). exact H. Qed.
 
+(* the physical networks of a description: request and response always, wide in narrow-wide networks *)
+Definition net_ok (d : desc) (nt : net) : Prop := nt = Req \/ nt = Rsp \/ (nt = Wide /\ d_nw d = true).
+Lemma flow_wide l : flow Wide l = wide_name l.
+Proof. reflexivity. Qed.
+Lemma net_of_type_nt nt : net_of_type (net_type nt) = Some nt.
+Proof. destruct nt; reflexivity. Qed.
+
 (* ------------------------------------------------------------------ the emitted instances *)
 Section Emitted.
   Variables (c : compiled) (ri : rinfo) (n : netlist).
@@ -94,15 +101,19 @@ Section Emitted.
   Lemma emitted_rt r : In r (c_rts c) ->
     exists x, emit_rt (c_desc c) ri r = Ok x /\ find_rt n (cr_name r) = Some x /\ r_name x = cr_name r /\
               r_req_out x = out_sig req_name (cr_out r) /\ r_req_in x = in_src req_name (cr_in r) /\
-              r_rsp_out x = out_sig rsp_name (cr_in r) /\ r_rsp_in x = in_src rsp_name (cr_out r).
+              r_rsp_out x = out_sig rsp_name (cr_in r) /\ r_rsp_in x = in_src rsp_name (cr_out r) /\
+              r_wide_out x = (if d_nw (c_desc c) then out_sig wide_name (cr_out r) else []) /\
+              r_wide_in x = (if d_nw (c_desc c) then in_src wide_name (cr_in r) else []).
   Proof.
     intros Hr. destruct (emit_inv _ _ _ He) as (_ & axi & rts & _ & Hrts & ->).
     destruct (mapM_In_l _ _ _ _ Hrts Hr) as (x & Hx & Ex). exists x. split; [exact Ex|].
     assert (Hname : forall r0 x0, emit_rt (c_desc c) ri r0 = Ok x0 -> r_name x0 = cr_name r0 /\
               r_req_out x0 = out_sig req_name (cr_out r0) /\ r_req_in x0 = in_src req_name (cr_in r0) /\
-              r_rsp_out x0 = out_sig rsp_name (cr_in r0) /\ r_rsp_in x0 = in_src rsp_name (cr_out r0)).
-    { intros r0 x0 H0. unfold emit_rt in H0. cbv zeta in H0. inv_bind H0. inversion H0; subst; cbn. auto 6. }
-    destruct (Hname r x Ex) as (N1 & N2 & N3 & N4 & N5). split; [|auto 6].
+              r_rsp_out x0 = out_sig rsp_name (cr_in r0) /\ r_rsp_in x0 = in_src rsp_name (cr_out r0) /\
+              r_wide_out x0 = (if d_nw (c_desc c) then out_sig wide_name (cr_out r0) else []) /\
+              r_wide_in x0 = (if d_nw (c_desc c) then in_src wide_name (cr_in r0) else [])).
+    { intros r0 x0 H0. unfold emit_rt in H0. cbv zeta in H0. inv_bind H0. inversion H0; subst; cbn. auto 8. }
+    destruct (Hname r x Ex) as (N1 & N2 & N3 & N4 & N5 & N6 & N7). split; [|auto 8].
     unfold find_rt. cbn [n_rts].
     assert (Hkeys : map r_name rts = map cr_name (c_rts c)).
     { apply mapM_Forall2 in Hrts. clear -Hrts Hname. induction Hrts as [|a b l l' Hab _ IH]; cbn; [reflexivity|].
@@ -112,13 +123,16 @@ Section Emitted.
 
   Lemma emitted_links u v : (exists e, In e (g_edges (c_graph c)) /\ is_link e = true /\ e_src e = u /\ e_dst e = v) ->
     ends_exist (c_graph c) ->
-    In ("floo_req_t", req_name (u, v)) (n_links n) /\ In ("floo_rsp_t", rsp_name (u, v)) (n_links n).
+    In ("floo_req_t", req_name (u, v)) (n_links n) /\ In ("floo_rsp_t", rsp_name (u, v)) (n_links n) /\
+    (d_nw (c_desc c) = true -> In ("floo_wide_t", wide_name (u, v)) (n_links n)).
   Proof.
     intros (e & Hin & Hl & Hu & Hv) Hends. destruct (emit_inv _ _ _ He) as (_ & axi & rts & _ & _ & ->). cbn [n_links].
-    unfold emit_links. split; apply in_flat_map; exists e; (split;
-      [apply filter_In; split; [apply (edges_view_In _ _ Hends); exact Hin|exact Hl]|]).
+    unfold emit_links.
+    assert (Hev : In e (filter is_link (edges_view (c_graph c)))) by (apply filter_In; split; [apply (edges_view_In _ _ Hends); exact Hin|exact Hl]).
+    split; [|split; [|intros Hnw]]; apply in_flat_map; exists e; (split; [exact Hev|]).
     - cbn. left. rewrite Hu, Hv. reflexivity.
     - cbn. right. left. rewrite Hu, Hv. reflexivity.
+    - cbn. right. right. rewrite Hnw. left. rewrite Hu, Hv. reflexivity.
   Qed.
 
   Lemma emitted_nis : n_nis n = map (emit_ni (c_desc c) (ri_offset ri)) (c_nis c).
@@ -313,11 +327,112 @@ Qed.
 Lemma rev_link_invol l : rev_link (rev_link l) = l.
 Proof. destruct l; reflexivity. Qed.
 
+(* ------------------------------------------------------------------ slots and attachments on net nt *)
+Section Slots.
+  Variables (d : desc) (g : graph) (c : compiled) (ri : rinfo) (n : netlist).
+  Variable nt : net.
+  Hypothesis Hnt : net_ok d nt.
+  Hypothesis Hb : build d = Ok g.
+  Hypothesis Hc : compile d g = Ok c.
+  Hypothesis He : emit c ri = Ok n.
+  Let Hcd : c_desc c = d := proj1 (compile_desc d g c Hc).
+  Let Hcg : c_graph c = g := proj2 (compile_desc d g c Hc).
+  Let Hnd : NoDup (map cr_name (c_rts c)) := built_router_names_nodup d g c Hb Hc.
+
+  Lemma rt_of_instance x : In x (n_rts n) -> exists r, In r (c_rts c) /\ emit_rt (c_desc c) ri r = Ok x.
+  Proof.
+    intros Hx. destruct (emit_inv _ _ _ He) as (_ & axi & rts & _ & Hrts & Hn). rewrite Hn in Hx. cbn [n_rts] in Hx.
+    destruct (mapM_In _ _ _ _ Hrts Hx) as (r & Hr & Hq). eauto.
+  Qed.
+
+  (* what the output and input slots of an emitted router carry on net nt *)
+  Lemma out_slot r x k l : In r (c_rts c) -> emit_rt (c_desc c) ri r = Ok x ->
+    nth_error (cr_out r) k = Some (Some l) -> nth_error (rt_outs nt x) k = Some [flow nt l].
+  Proof.
+    intros Hr Hx Hk. destruct (emitted_rt c ri n He Hnd r Hr) as (x' & Hx' & _ & _ & O1 & _ & O2 & _ & O3 & _).
+    rewrite Hx in Hx'. inversion Hx'; subst x'. destruct Hnt as [-> | [-> | (-> & Hnw)]]; cbn [rt_outs].
+    - rewrite O1. unfold out_sig. rewrite nth_error_map, Hk. reflexivity.
+    - rewrite O2. unfold out_sig. rewrite nth_error_map.
+      destruct l as [u v]. destruct (crt_out_link d g c Hb Hc r k u v Hr Hk) as (_ & Hin & _). rewrite Hin. reflexivity.
+    - rewrite O3, Hcd, Hnw. unfold out_sig. rewrite nth_error_map, Hk. reflexivity.
+  Qed.
+
+  Lemma in_slot r x i sl s : In r (c_rts c) -> emit_rt (c_desc c) ri r = Ok x ->
+    nth_error (rt_ins nt x) i = Some sl -> In (SSig s) sl ->
+    exists l, nth_error (cr_in r) i = Some (Some l) /\ s = flow nt l.
+  Proof.
+    intros Hr Hx Hi Hs. destruct (emitted_rt c ri n He Hnd r Hr) as (x' & Hx' & _ & _ & _ & I1 & _ & I2 & _ & I3).
+    rewrite Hx in Hx'. inversion Hx'; subst x'. destruct Hnt as [-> | [-> | (-> & Hnw)]]; cbn [rt_ins] in Hi.
+    - rewrite I1 in Hi. unfold in_src in Hi. rewrite nth_error_map in Hi.
+      destruct (nth_error (cr_in r) i) as [o|]; [|discriminate]. cbn in Hi. inversion Hi; subst sl.
+      destruct o as [l|]; [|destruct Hs as [Hs|[]]; discriminate]. destruct Hs as [Hs|[]]. inversion Hs. exists l. auto.
+    - rewrite I2 in Hi. unfold in_src in Hi. rewrite nth_error_map in Hi.
+      destruct (nth_error (cr_out r) i) as [o|] eqn:Eo; [|discriminate]. cbn in Hi. inversion Hi; subst sl.
+      destruct o as [[u v]|]; [|destruct Hs as [Hs|[]]; discriminate]. destruct Hs as [Hs|[]]. inversion Hs.
+      destruct (crt_out_link d g c Hb Hc r i u v Hr Eo) as (_ & Hin & _). exists (v, u). split; [exact Hin|reflexivity].
+    - rewrite I3, Hcd, Hnw in Hi. unfold in_src in Hi. rewrite nth_error_map in Hi.
+      destruct (nth_error (cr_in r) i) as [o|]; [|discriminate]. cbn in Hi. inversion Hi; subst sl.
+      destruct o as [l|]; [|destruct Hs as [Hs|[]]; discriminate]. destruct Hs as [Hs|[]]. inversion Hs. exists l. auto.
+  Qed.
+
+  Lemma link_declared u v : is_link_of g (u, v) -> In (net_type nt, flow nt (u, v)) (n_links n).
+  Proof.
+    intros Hl. pose proof (build_ginv d g Hb) as (Hsym & Hends).
+    destruct Hnt as [-> | [-> | (-> & Hnw)]]; cbn [net_type].
+    - apply (emitted_links c ri n He u v); rewrite Hcg; assumption.
+    - (* the response signal u -> v belongs to the link v -> u *)
+      destruct Hl as (e & Hin & Hle & Hs & Hd). cbn in Hs, Hd. destruct (Hsym e Hin Hle) as (e' & He' & M1 & M2 & M3 & _).
+      assert (Hl' : exists e0, In e0 (g_edges (c_graph c)) /\ is_link e0 = true /\ e_src e0 = v /\ e_dst e0 = u).
+      { rewrite Hcg. exists e'. repeat split; auto; congruence. }
+      apply (emitted_links c ri n He v u Hl'). rewrite Hcg. exact Hends.
+    - assert (Hl' : exists e0, In e0 (g_edges (c_graph c)) /\ is_link e0 = true /\ e_src e0 = u /\ e_dst e0 = v) by (rewrite Hcg; exact Hl).
+      destruct (emitted_links c ri n He u v Hl' ltac:(rewrite Hcg; exact Hends)) as (_ & _ & Hw). apply Hw. rewrite Hcd. exact Hnw.
+  Qed.
+
+  (* the link an interface sends net nt on: its first link to a router (requests) resp. the reverse of its
+     first link from a router (responses) *)
+  Definition attach (x : cni) : link :=
+    match nt with Rsp => rev_link (cn_sbr_link x) | _ => cn_mgr_link x end.
+
+  Lemma compile_ni_links x : In x (c_nis c) ->
+    fst (cn_mgr_link x) = cn_name x /\ is_link_of g (cn_mgr_link x) /\
+    snd (cn_sbr_link x) = cn_name x /\ is_link_of g (cn_sbr_link x).
+  Proof.
+    intros Hx. destruct (compile_inv _ _ _ Hc) as (dirs & nis & rts & rids & Hn & _ & Hceq). rewrite Hceq in Hx. cbn in Hx.
+    destruct (mapM_In _ _ _ _ Hn Hx) as (ni & _ & Hq). unfold compile_ni in Hq.
+    destruct (find_ep d (n_desc ni)); [|discriminate]. inv_bind Hq. inversion Hq; subst x; clear Hq. cbn.
+    unfold link_edges_from in E3. destruct (filter is_link (edges_from g (n_name ni))) as [|e1 l] eqn:F; [discriminate|].
+    inversion E3; subst a3. assert (He1 : In e1 (filter is_link (edges_from g (n_name ni)))) by (rewrite F; left; reflexivity).
+    apply filter_In in He1. destruct He1 as (He1 & Hl1).
+    unfold link_edges_to in E4. destruct (filter is_link (edges_to g (n_name ni))) as [|e2 l2] eqn:F2; [discriminate|].
+    inversion E4; subst a4. assert (He2 : In e2 (filter is_link (edges_to g (n_name ni)))) by (rewrite F2; left; reflexivity).
+    apply filter_In in He2. destruct He2 as (He2 & Hl2). cbn.
+    split; [eapply edges_from_src; eauto|]. split.
+    - unfold edges_from in He1. apply filter_In in He1. destruct He1 as (He1 & _). apply edges_view_sub in He1. exists e1. cbn. auto.
+    - split; [eapply edges_to_dst; eauto|].
+      unfold edges_to in He2. apply filter_In in He2. destruct He2 as (He2 & _). apply edges_view_sub in He2. exists e2. cbn. auto.
+  Qed.
+
+  Lemma attach_link x : In x (c_nis c) -> fst (attach x) = cn_name x /\ is_link_of g (attach x) /\
+    ni_out nt (emit_ni d (ri_offset ri) x) = Some (flow nt (attach x)).
+  Proof.
+    intros Hx. destruct (compile_ni_links x Hx) as (M1 & M2 & S1 & S2). unfold attach.
+    destruct Hnt as [-> | [-> | (-> & Hnw)]]; [| |split; [exact M1|]; split; [exact M2|]; cbn [ni_out emit_ni ni_wide_o]; rewrite Hnw; reflexivity].
+    - split; [exact M1|]. split; [exact M2|]. reflexivity.
+    - split; [destruct (cn_sbr_link x); exact S1|]. split.
+      + destruct S2 as (e & Hin & Hl & Hs & Hd). destruct (build_ginv d g Hb) as (Hsym & _).
+        destruct (Hsym e Hin Hl) as (e' & He' & N1 & N2 & N3 & _). exists e'. destruct (cn_sbr_link x). cbn in *.
+        repeat split; auto; congruence.
+      + cbn [ni_out emit_ni ni_rsp_o]. rewrite <- flow_rsp. reflexivity.
+  Qed.
+
+End Slots.
+
 (* ------------------------------------------------------------------ the walk of a flit under IdTable routing *)
 Section HwId.
   Variables (sp : oracle) (d : desc) (g : graph) (c : compiled) (ri : rinfo) (n : netlist) (t : cni) (id : Z).
   Variable nt : net.
-  Hypothesis Hnt : nt = Req \/ nt = Rsp.
+  Hypothesis Hnt : net_ok d nt.
   Hypothesis Hb : build d = Ok g.
   Hypothesis Hc : compile d g = Ok c.
   Hypothesis Hri : gen_routing_info sp c = Ok ri.
@@ -344,53 +459,11 @@ Section HwId.
   Let Hcd : c_desc c = d := proj1 (compile_desc d g c Hc).
   Let Hcg : c_graph c = g := proj2 (compile_desc d g c Hc).
   Let Hnd : NoDup (map cr_name (c_rts c)) := built_router_names_nodup d g c Hb Hc.
-
-  Lemma rt_of_instance x : In x (n_rts n) -> exists r, In r (c_rts c) /\ emit_rt (c_desc c) ri r = Ok x.
-  Proof.
-    intros Hx. destruct (emit_inv _ _ _ He) as (_ & axi & rts & _ & Hrts & Hn). rewrite Hn in Hx. cbn [n_rts] in Hx.
-    destruct (mapM_In _ _ _ _ Hrts Hx) as (r & Hr & Hq). eauto.
-  Qed.
-
-  (* what the output and input slots of an emitted router carry on net nt *)
-  Lemma out_slot r x k l : In r (c_rts c) -> emit_rt (c_desc c) ri r = Ok x ->
-    nth_error (cr_out r) k = Some (Some l) -> nth_error (rt_outs nt x) k = Some [flow nt l].
-  Proof.
-    clear Hwire.
-    intros Hr Hx Hk. destruct (emitted_rt c ri n He Hnd r Hr) as (x' & Hx' & _ & _ & O1 & _ & O2 & _).
-    rewrite Hx in Hx'. inversion Hx'; subst x'. destruct Hnt as [-> | ->]; cbn [rt_outs].
-    - rewrite O1. unfold out_sig. rewrite nth_error_map, Hk. reflexivity.
-    - rewrite O2. unfold out_sig. rewrite nth_error_map.
-      destruct l as [u v]. destruct (crt_out_link d g c Hb Hc r k u v Hr Hk) as (_ & Hin & _). rewrite Hin. reflexivity.
-  Qed.
-
-  Lemma in_slot r x i sl s : In r (c_rts c) -> emit_rt (c_desc c) ri r = Ok x ->
-    nth_error (rt_ins nt x) i = Some sl -> In (SSig s) sl ->
-    exists l, nth_error (cr_in r) i = Some (Some l) /\ s = flow nt l.
-  Proof.
-    clear Hwire.
-    intros Hr Hx Hi Hs. destruct (emitted_rt c ri n He Hnd r Hr) as (x' & Hx' & _ & _ & _ & I1 & _ & I2).
-    rewrite Hx in Hx'. inversion Hx'; subst x'. destruct Hnt as [-> | ->]; cbn [rt_ins] in Hi.
-    - rewrite I1 in Hi. unfold in_src in Hi. rewrite nth_error_map in Hi.
-      destruct (nth_error (cr_in r) i) as [o|]; [|discriminate]. cbn in Hi. inversion Hi; subst sl.
-      destruct o as [l|]; [|destruct Hs as [Hs|[]]; discriminate]. destruct Hs as [Hs|[]]. inversion Hs. exists l. auto.
-    - rewrite I2 in Hi. unfold in_src in Hi. rewrite nth_error_map in Hi.
-      destruct (nth_error (cr_out r) i) as [o|] eqn:Eo; [|discriminate]. cbn in Hi. inversion Hi; subst sl.
-      destruct o as [[u v]|]; [|destruct Hs as [Hs|[]]; discriminate]. destruct Hs as [Hs|[]]. inversion Hs.
-      destruct (crt_out_link d g c Hb Hc r i u v Hr Eo) as (_ & Hin & _). exists (v, u). split; [exact Hin|reflexivity].
-  Qed.
-
-  Lemma link_declared u v : is_link_of g (u, v) -> In (net_type nt, flow nt (u, v)) (n_links n).
-  Proof.
-    clear Hwire.
-    intros Hl. pose proof (build_ginv d g Hb) as (Hsym & Hends).
-    destruct Hnt as [-> | ->]; cbn [net_type].
-    - apply (emitted_links c ri n He u v); rewrite Hcg; assumption.
-    - (* the response signal u -> v belongs to the link v -> u *)
-      destruct Hl as (e & Hin & Hle & Hs & Hd). cbn in Hs, Hd. destruct (Hsym e Hin Hle) as (e' & He' & M1 & M2 & M3 & _).
-      assert (Hl' : exists e0, In e0 (g_edges (c_graph c)) /\ is_link e0 = true /\ e_src e0 = v /\ e_dst e0 = u).
-      { rewrite Hcg. exists e'. repeat split; auto; congruence. }
-      apply (emitted_links c ri n He v u Hl'). rewrite Hcg. exact Hends.
-  Qed.
+  Let rt_of_instance := rt_of_instance c ri n He.
+  Let out_slot := out_slot d g c ri n nt Hnt Hb Hc He.
+  Let in_slot := in_slot d g c ri n nt Hnt Hb Hc He.
+  Let link_declared := link_declared d g c ri n nt Hnt Hb Hc He.
+  Let attach_link := attach_link d g c ri nt Hnt Hb Hc.
 
   Theorem hw_walk : forall k r p inp prev,
     In r (c_rts c) -> sp' (cr_name r) = Some p -> length p = S (S k) ->
@@ -423,7 +496,7 @@ Section HwId.
     (* the signal is declared, so it has one driver and one reader *)
     all: pose proof (link_declared _ _ Hlink) as Hdecl; fold s in Hdecl.
     all: destruct (Hwire _ Hdecl eq_refl) as (nt' & dd & u & Hnt' & Hdrv & Hrd & Hnm); cbn [fst snd] in Hnt', Hdrv, Hrd, Hnm.
-    all: assert (nt' = nt) by (destruct Hnt as [-> | ->]; cbv in Hnt'; congruence); subst nt'.
+    all: assert (nt' = nt) by (rewrite net_of_type_nt in Hnt'; congruence); subst nt'.
     all: assert (Hxin : In x (n_rts n)) by (apply find_some in Hfind; tauto).
     all: assert (Hdd : dd = URt (cr_name r) k1) by
       (pose proof (driver_rt_nt n nt x k1 s Hxin (out_slot r x k1 _ Hr Hx Hk1)) as Hd1; rewrite Hdrv, Hname in Hd1;
@@ -502,59 +575,21 @@ Section HwId.
     rewrite removelast_length in Hle by (intros E0; rewrite E0 in Hlen; discriminate). lia.
   Qed.
 
-  (* the link an interface sends net nt on: its first link to a router (requests) resp. the reverse of its
-     first link from a router (responses) *)
-  Definition attach (x : cni) : link :=
-    match nt with Rsp => rev_link (cn_sbr_link x) | _ => cn_mgr_link x end.
-
-  Lemma compile_ni_links x : In x (c_nis c) ->
-    fst (cn_mgr_link x) = cn_name x /\ is_link_of g (cn_mgr_link x) /\
-    snd (cn_sbr_link x) = cn_name x /\ is_link_of g (cn_sbr_link x).
-  Proof.
-    intros Hx. destruct (compile_inv _ _ _ Hc) as (dirs & nis & rts & rids & Hn & _ & Hceq). rewrite Hceq in Hx. cbn in Hx.
-    destruct (mapM_In _ _ _ _ Hn Hx) as (ni & _ & Hq). unfold compile_ni in Hq.
-    destruct (find_ep d (n_desc ni)); [|discriminate]. inv_bind Hq. inversion Hq; subst x; clear Hq. cbn.
-    unfold link_edges_from in E3. destruct (filter is_link (edges_from g (n_name ni))) as [|e1 l] eqn:F; [discriminate|].
-    inversion E3; subst a3. assert (He1 : In e1 (filter is_link (edges_from g (n_name ni)))) by (rewrite F; left; reflexivity).
-    apply filter_In in He1. destruct He1 as (He1 & Hl1).
-    unfold link_edges_to in E4. destruct (filter is_link (edges_to g (n_name ni))) as [|e2 l2] eqn:F2; [discriminate|].
-    inversion E4; subst a4. assert (He2 : In e2 (filter is_link (edges_to g (n_name ni)))) by (rewrite F2; left; reflexivity).
-    apply filter_In in He2. destruct He2 as (He2 & Hl2). cbn.
-    split; [eapply edges_from_src; eauto|]. split.
-    - unfold edges_from in He1. apply filter_In in He1. destruct He1 as (He1 & _). apply edges_view_sub in He1. exists e1. cbn. auto.
-    - split; [eapply edges_to_dst; eauto|].
-      unfold edges_to in He2. apply filter_In in He2. destruct He2 as (He2 & _). apply edges_view_sub in He2. exists e2. cbn. auto.
-  Qed.
-
-  Lemma attach_link x : In x (c_nis c) -> fst (attach x) = cn_name x /\ is_link_of g (attach x) /\
-    ni_out nt (emit_ni d (ri_offset ri) x) = Some (flow nt (attach x)).
-  Proof.
-    clear Hwire.
-    intros Hx. destruct (compile_ni_links x Hx) as (M1 & M2 & S1 & S2). unfold attach.
-    destruct Hnt as [-> | ->].
-    - split; [exact M1|]. split; [exact M2|]. reflexivity.
-    - split; [destruct (cn_sbr_link x); exact S1|]. split.
-      + destruct S2 as (e & Hin & Hl & Hs & Hd). destruct (build_ginv d g Hb) as (Hsym & _).
-        destruct (Hsym e Hin Hl) as (e' & He' & N1 & N2 & N3 & _). exists e'. destruct (cn_sbr_link x). cbn in *.
-        repeat split; auto; congruence.
-      + cbn [ni_out emit_ni ni_rsp_o]. rewrite <- flow_rsp. reflexivity.
-  Qed.
-
   (* C02 on the hardware model: a flit injected at interface s0 on net nt with the identity of t is delivered to t *)
   Theorem hw_send s0 r0 p :
-    In s0 (c_nis c) -> cn_name s0 <> tname -> snd (attach s0) = r0 -> is_router c r0 -> sp' r0 = Some p ->
+    In s0 (c_nis c) -> cn_name s0 <> tname -> snd (attach nt s0) = r0 -> is_router c r0 -> sp' r0 = Some p ->
     let tr := send n nt (emit_ni d (ri_offset ri) s0) (HId id) in
     t_out tr = Delivered tname (HId id) /\ S (length (t_rts tr)) = length p.
   Proof.
     intros Hs0 Hne Hr0 Hrt Hsp. cbv zeta.
     destruct (attach_link s0 Hs0) as (Hfst & Hlink & Hout).
-    assert (Hml : attach s0 = (cn_name s0, r0)) by (destruct (attach s0); cbn in *; congruence).
+    assert (Hml : attach nt s0 = (cn_name s0, r0)) by (destruct (attach nt s0); cbn in *; congruence).
     rewrite Hml in Hlink, Hout.
     unfold send. rewrite Hout.
     set (s := flow nt (cn_name s0, r0)).
     pose proof (link_declared _ _ Hlink) as Hdecl. fold s in Hdecl.
     destruct (Hwire _ Hdecl eq_refl) as (nt' & dd & u & Hnt' & Hdrv & Hrd & Hnm); cbn [fst snd] in Hnt', Hdrv, Hrd, Hnm.
-    assert (nt' = nt) by (destruct Hnt as [-> | ->]; cbv in Hnt'; congruence); subst nt'.
+    assert (nt' = nt) by (rewrite net_of_type_nt in Hnt'; congruence); subst nt'.
     (* the interface itself drives the signal *)
     assert (Hdd : dd = UNi (cn_name s0)).
     { assert (Hin : In (UNi (cn_name s0)) (drivers n nt s)).
@@ -609,7 +644,7 @@ End HwId.
 From FV Require Import RefOracle.
 
 Theorem hw_send_ref (d : desc) (g : graph) (c : compiled) (ri : rinfo) (n : netlist) (t : cni) (id : Z) (nt : net) :
-  nt = Req \/ nt = Rsp ->
+  net_ok d nt ->
   build d = Ok g -> compile d g = Ok c -> gen_routing_info sp_reference c = Ok ri -> emit c ri = Ok n ->
   d_algo d = ID -> In t (c_nis c) -> id_num (cn_id t) = Ok id ->
   (forall u p, is_router c u -> sp_reference g u (cn_name t) = Some p -> forall x, In x (removelast p) -> is_router c x) ->
@@ -667,7 +702,7 @@ End Shortest.
 Section HwSrc.
   Variables (d : desc) (g : graph) (c : compiled) (ri : rinfo) (n : netlist) (t : cni).
   Variable nt : net.
-  Hypothesis Hnt : nt = Req \/ nt = Rsp.
+  Hypothesis Hnt : net_ok d nt.
   Hypothesis Hb : build d = Ok g.
   Hypothesis Hc : compile d g = Ok c.
   Hypothesis He : emit c ri = Ok n.
@@ -718,22 +753,12 @@ Section HwSrc.
     cbn [is_xy andb].
     assert (Hcd : c_desc c = d) by apply (compile_desc d g c Hc).
     assert (Hcg : c_graph c = g) by apply (compile_desc d g c Hc).
-    assert (Hslot : nth_error (rt_outs nt x) k1 = Some [flow nt (cr_name r, b)]).
-    { destruct (emitted_rt c ri n He Hnd r Hr) as (x' & Hx' & _ & _ & O1 & _ & O2 & _).
-      rewrite Hx in Hx'. inversion Hx'; subst x'. destruct Hnt as [-> | ->]; cbn [rt_outs].
-      - rewrite O1. unfold out_sig. rewrite nth_error_map, Hk1. reflexivity.
-      - rewrite O2. unfold out_sig. rewrite nth_error_map, Hin1. reflexivity. }
+    pose proof (out_slot d g c ri n nt Hnt Hb Hc He r x k1 _ Hr Hx Hk1) as Hslot.
     rewrite Nat2Z.id, Hslot. cbv beta iota.
     set (s := flow nt (cr_name r, b)).
-    assert (Hdecl : In (net_type nt, s) (n_links n)).
-    { pose proof (build_ginv d g Hb) as (Hsym & Hends). destruct Hnt as [-> | ->]; cbn [net_type].
-      - apply (emitted_links c ri n He (cr_name r) b); rewrite Hcg; assumption.
-      - destruct Hlink as (e & Hein & Hle & Hs & Hd'). cbn in Hs, Hd'. destruct (Hsym e Hein Hle) as (e' & He' & M1 & M2 & M3 & _).
-        assert (Hl' : exists e0, In e0 (g_edges (c_graph c)) /\ is_link e0 = true /\ e_src e0 = b /\ e_dst e0 = cr_name r).
-        { rewrite Hcg. exists e'. repeat split; auto; congruence. }
-        apply (emitted_links c ri n He b (cr_name r) Hl'). rewrite Hcg. exact Hends. }
+    pose proof (link_declared d g c ri n nt Hnt Hb Hc He _ _ Hlink) as Hdecl. fold s in Hdecl.
     destruct (Hwire _ Hdecl eq_refl) as (nt' & dd & u & Hnt' & Hdrv & Hrd & Hnm); cbn [fst snd] in Hnt', Hdrv, Hrd, Hnm.
-    assert (nt' = nt) by (destruct Hnt as [-> | ->]; cbv in Hnt'; congruence); subst nt'.
+    assert (nt' = nt) by (rewrite net_of_type_nt in Hnt'; congruence); subst nt'.
     assert (Hxin : In x (n_rts n)) by (apply find_some in Hfind; tauto).
     assert (Hdd : dd = URt (cr_name r) k1).
     { pose proof (driver_rt_nt n nt x k1 s Hxin Hslot) as Hd1. rewrite Hdrv, Hname in Hd1. destruct Hd1 as [Hd1|[]]. exact Hd1. }
@@ -764,15 +789,7 @@ Section HwSrc.
         destruct (emitted_rt c ri n He Hnd r2 Hr2) as (x2' & Hx2' & _ & Hn2 & _ & I1 & _ & I2). rewrite Hq2 in Hx2'. inversion Hx2'; subst x2'.
         assert (r2 = rb) by (eapply NoDup_map_eq; [exact Hnd|exact Hr2|exact Hrb|congruence]). subst r2.
         (* the reader's slot holds exactly this link *)
-        assert (Hslotin : exists l, nth_error (cr_in rb) i = Some (Some l) /\ s = flow nt l).
-        { destruct Hnt as [-> | ->]; cbn [rt_ins] in Hsl.
-          - rewrite I1 in Hsl. unfold in_src in Hsl. rewrite nth_error_map in Hsl.
-            destruct (nth_error (cr_in rb) i) as [o|]; [|discriminate]. cbn in Hsl. inversion Hsl; subst sl.
-            destruct o as [l|]; [|destruct Hs as [Hs|[]]; discriminate]. destruct Hs as [Hs|[]]. inversion Hs. exists l. auto.
-          - rewrite I2 in Hsl. unfold in_src in Hsl. rewrite nth_error_map in Hsl.
-            destruct (nth_error (cr_out rb) i) as [o|] eqn:Eo; [|discriminate]. cbn in Hsl. inversion Hsl; subst sl.
-            destruct o as [[u0 v0]|]; [|destruct Hs as [Hs|[]]; discriminate]. destruct Hs as [Hs|[]]. inversion Hs.
-            destruct (crt_out_link d g c Hb Hc rb i u0 v0 Hrb Eo) as (_ & Hin & _). exists (v0, u0). split; [exact Hin|reflexivity]. }
+        pose proof (in_slot d g c ri n nt Hnt Hb Hc He rb x2 i sl s Hrb Hq2 Hsl Hs) as Hslotin.
         destruct Hslotin as ([a0 b0] & Eo & Hs').
         destruct (crt_facts d g c Hb Hc rb Hrb) as (_ & Hends2 & _).
         pose proof (Hends2 (a0, b0) (nth_error_In _ _ Eo)) as Hb2. cbn in Hb2.
@@ -811,7 +828,7 @@ Qed.
 Section HwSrcSend.
   Variables (sp : oracle) (d : desc) (g : graph) (c : compiled) (ri : rinfo) (n : netlist) (t : cni).
   Variable nt : net.
-  Hypothesis Hnt : nt = Req \/ nt = Rsp.
+  Hypothesis Hnt : net_ok d nt.
   Hypothesis Hb : build d = Ok g.
   Hypothesis Hc : compile d g = Ok c.
   Hypothesis He : emit c ri = Ok n.
@@ -836,15 +853,9 @@ Section HwSrcSend.
     assert (Hml : attach nt s0 = (cn_name s0, r0)) by (destruct (attach nt s0); cbn in *; congruence).
     rewrite Hml in Hlink, Hout. split; [exact Hout|].
     set (s := flow nt (cn_name s0, r0)).
-    assert (Hdecl : In (net_type nt, s) (n_links n)).
-    { pose proof (build_ginv d g Hb) as (Hsym & Hends). destruct Hnt as [-> | ->]; cbn [net_type].
-      - apply (emitted_links c ri n He (cn_name s0) r0); rewrite Hcg; assumption.
-      - destruct Hlink as (e & Hein & Hle & Hs & Hd'). cbn in Hs, Hd'. destruct (Hsym e Hein Hle) as (e' & He' & M1 & M2 & M3 & _).
-        assert (Hl' : exists e0, In e0 (g_edges (c_graph c)) /\ is_link e0 = true /\ e_src e0 = r0 /\ e_dst e0 = cn_name s0).
-        { rewrite Hcg. exists e'. repeat split; auto; congruence. }
-        apply (emitted_links c ri n He r0 (cn_name s0) Hl'). rewrite Hcg. exact Hends. }
+    pose proof (link_declared d g c ri n nt Hnt Hb Hc He _ _ Hlink) as Hdecl. fold s in Hdecl.
     destruct (Hwire _ Hdecl eq_refl) as (nt' & dd & u & Hnt' & Hdrv & Hrd & Hnm); cbn [fst snd] in Hnt', Hdrv, Hrd, Hnm.
-    assert (nt' = nt) by (destruct Hnt as [-> | ->]; cbv in Hnt'; congruence); subst nt'.
+    assert (nt' = nt) by (rewrite net_of_type_nt in Hnt'; congruence); subst nt'.
     assert (Hdd : dd = UNi (cn_name s0)).
     { assert (Hin : In (UNi (cn_name s0)) (drivers n nt s)).
       { unfold drivers. apply in_app_iff. left. apply in_flat_map. exists (emit_ni d (ri_offset ri) s0). split.
@@ -862,15 +873,7 @@ Section HwSrcSend.
       destruct (emit_inv _ _ _ He) as (_ & axi & rts0 & _ & Hrts & Hn). rewrite Hn in Hx2. cbn [n_rts] in Hx2.
       destruct (mapM_In _ _ _ _ Hrts Hx2) as (r2 & Hr2 & Hq2).
       destruct (emitted_rt c ri n He Hnd r2 Hr2) as (x2' & Hx2' & _ & Hn2 & _ & I1 & _ & I2). rewrite Hq2 in Hx2'. inversion Hx2'; subst x2'.
-      assert (Hslotin : exists l, nth_error (cr_in r2) i = Some (Some l) /\ s = flow nt l).
-      { destruct Hnt as [-> | ->]; cbn [rt_ins] in Hsl.
-        - rewrite I1 in Hsl. unfold in_src in Hsl. rewrite nth_error_map in Hsl.
-          destruct (nth_error (cr_in r2) i) as [o|]; [|discriminate]. cbn in Hsl. inversion Hsl; subst sl.
-          destruct o as [l|]; [|destruct Hs as [Hs|[]]; discriminate]. destruct Hs as [Hs|[]]. inversion Hs. exists l. auto.
-        - rewrite I2 in Hsl. unfold in_src in Hsl. rewrite nth_error_map in Hsl.
-          destruct (nth_error (cr_out r2) i) as [o|] eqn:Eo; [|discriminate]. cbn in Hsl. inversion Hsl; subst sl.
-          destruct o as [[u0 v0]|]; [|destruct Hs as [Hs|[]]; discriminate]. destruct Hs as [Hs|[]]. inversion Hs.
-          destruct (crt_out_link d g c Hb Hc r2 i u0 v0 Hr2 Eo) as (_ & Hin & _). exists (v0, u0). split; [exact Hin|reflexivity]. }
+      pose proof (in_slot d g c ri n nt Hnt Hb Hc He r2 x2 i sl s Hr2 Hq2 Hsl Hs) as Hslotin.
       destruct Hslotin as ([a0 b0] & Eo & Hs').
       destruct (crt_facts d g c Hb Hc r2 Hr2) as (_ & Hends2 & _).
       pose proof (Hends2 (a0, b0) (nth_error_In _ _ Eo)) as Hb2. cbn in Hb2.
@@ -954,7 +957,7 @@ Proof.
 Qed.
 
 Theorem hw_src_send_ref (d : desc) (g : graph) (c : compiled) (ri : rinfo) (n : netlist) (t : cni) (nt : net) :
-  nt = Req \/ nt = Rsp ->
+  net_ok d nt ->
   build d = Ok g -> compile d g = Ok c -> gen_routing_info sp_reference c = Ok ri -> emit c ri = Ok n ->
   d_algo d = SRC -> In t (c_nis c) -> chk_C05 n = [] ->
   forall s0 id ps p, In s0 (c_nis c) -> gen_route sp_reference c s0 t = Ok (id, Some ps) ->
